@@ -10,6 +10,7 @@ def _run(ctx):
             workers=4, timeout=2400)
     results = []
     gens = ["Gen_RpkiTree_thorough.cfg", "Gen_RpkiTree_thorough2.cfg"] if ctx.thorough else ["Gen_RpkiTree.cfg"]
+    gens.append("Gen_RpkiTree_unsafe.cfg")
     total = 0
     for i, cfg in enumerate(gens):
         gen = lib.tlc(ctx, "gen%d" % i, "MC_GenRpkiTree.tla", cfg, workers=4, timeout=3000, count=False)
@@ -34,7 +35,7 @@ def _run(ctx):
         "validity windows have >= 1 h slack on either side of now",
     ]
     rules = {
-        "C01": "each world (6 tree shapes x every single fault at every site x configurations) is built as real signed objects "
+        "C01": "each world (7 tree shapes x every single fault at every site x configurations) is built as real signed objects "
                "and validated by the real engine; oracle: served set is a subset of the specification's expected set, no "
                "duplicates; non-trivial = world with at least one fault, distinct by (shape, faults, config)",
         "C02": "same worlds; oracle: expected set is a subset of the served set (object-level faults remove only the object; "
@@ -44,7 +45,8 @@ def _run(ctx):
         "C07": "shapes 'deep' (chain of 5 CAs, max-ca-depth 2/3/32) and 'loop' (certificates for ancestors' keys) x faults x "
                "1/2/4 threads under a 60 s watchdog; oracle: terminates, nothing from beyond the depth limit or a repeated key, "
                "rest of the tree intact",
-        "C08": "worlds with at least one rejected publication point; oracle: under reject no served VRP overlaps the rejected "
+        "C08": "worlds with at least one rejected publication point, and the shape 'halves' with every pair of rejected "
+               "points (resources adding up to the whole space, a whole-space CA next to a specific one); oracle: under reject no served VRP overlaps the rejected "
                "CA's resources (whole-family blocks excepted), under warn/accept nothing is removed; non-trivial = some valid "
                "VRP overlaps rejected resources",
         "C41": "faulty worlds; oracle: every object of a CA outside the faulty repository (and not below it) that is valid in the "
